@@ -7,6 +7,7 @@ package harness
 
 import (
 	"fmt"
+	"net"
 
 	utls "github.com/refraction-networking/utls"
 )
@@ -152,4 +153,38 @@ func (h *HelloPlan) Spec() *utls.ClientHelloSpec {
 
 func isGREASE(v uint16) bool {
 	return v&0x0f0f == 0x0a0a && v>>8 == v&0xff
+}
+
+// PredictFingerprints builds the ClientHello off-line with utls and returns the
+// reference JA3 / JA4 a client can compute for itself before it connects.
+func PredictFingerprints(h *HelloPlan) (ja3, ja4 string, ok bool) {
+	defer func() {
+		if recover() != nil {
+			ok = false
+		}
+	}()
+	if h == nil {
+		return "", "", false
+	}
+	u := utls.UClient(&net.TCPConn{}, &utls.Config{InsecureSkipVerify: true, ServerName: h.SNI()}, utls.HelloCustom)
+	if err := u.ApplyPreset(h.Spec()); err != nil {
+		return "", "", false
+	}
+	if err := u.BuildHandshakeState(); err != nil {
+		return "", "", false
+	}
+	raw := u.HandshakeState.Hello.Raw
+	if len(raw) == 0 || len(raw) > 16384 {
+		return "", "", false
+	}
+	rec := append([]byte{0x16, 0x03, 0x01, byte(len(raw) >> 8), byte(len(raw))}, raw...)
+	ref, err := ParseHelloRecord(rec)
+	if err != nil {
+		return "", "", false
+	}
+	j4 := ref.JA4()
+	if j4.ALPNOpen {
+		return "", "", false
+	}
+	return ref.JA3(), j4.A + "_" + j4.B[0] + "_" + j4.C[0], true
 }
